@@ -37,17 +37,40 @@ func (s *Server) startGateway(network string, ln net.Listener) net.Listener {
 
 	if !s.DisableJSONRPC {
 		jsonrpc2Ln := m.Match(cmux.HTTP1HeaderField("X-JSONRPC-2.0", "true"))
-		go s.startJSONRPC2(jsonrpc2Ln)
+		go s.startJSONRPC2(&acceptFilterListener{Listener: jsonrpc2Ln, s: s})
 	}
 
 	if !s.DisableHTTPGateway {
 		httpLn := m.Match(cmux.HTTP1Fast()) // X-RPCX-MessageID
-		go s.startHTTP1APIGateway(httpLn)
+		go s.startHTTP1APIGateway(&acceptFilterListener{Listener: httpLn, s: s})
 	}
 
 	go m.Serve()
 
 	return rpcxLn
+}
+
+// acceptFilterListener applies the PostConnAccept plugins (IP black/white lists, connection limits,
+// ...) to the connections of the HTTP ingresses as well: those are accepted by net/http, not by
+// serveListener, and would otherwise bypass every accept plugin.
+type acceptFilterListener struct {
+	net.Listener
+	s *Server
+}
+
+func (l *acceptFilterListener) Accept() (net.Conn, error) {
+	for {
+		conn, err := l.Listener.Accept()
+		if err != nil {
+			return nil, err
+		}
+		c, ok := l.s.Plugins.DoPostConnAccept(conn)
+		if !ok {
+			conn.Close()
+			continue
+		}
+		return c, nil
+	}
 }
 
 func http1Path(prefix string) cmux.Matcher {
